@@ -116,6 +116,7 @@ func (c *fn) withJoinF(n ast.Node, assigned []types.Object, k kont, force bool, 
 		params = []string{"(_ : unit)"}
 		args = []string{"tt"}
 	}
+	nl, nlo, nlf, nf := c.nloops, len(c.localOrder), len(c.lifted), c.nfresh
 	kbody := c.scoped(func() string {
 		for _, o := range assigned {
 			delete(c.views, o)
@@ -134,8 +135,6 @@ func (c *fn) withJoinF(n ast.Node, assigned []types.Object, k kont, force bool, 
 	if force {
 		return "let " + name + " := (fun " + strings.Join(params, " ") + " => " + kbody + ") in " + body(func() string { return call })
 	}
-	nl, nlo, nlf := c.nloops, len(c.localOrder), len(c.lifted)
-	nf := c.nfresh
 	inner := body(func() string { return call })
 	if strings.Count(inner, call) <= 1 {
 		for _, x := range c.localOrder[nlo:] {
@@ -321,6 +320,10 @@ func (c *fn) ifStmt(s *ast.IfStmt, k kont) string {
 				return "match ptr_val " + c.nameOf(o) + " with | Some " + v + " => " + someT + " | None => " + noneT + " end"
 			}
 			cond := c.expr(s.Cond)
+			if s.Else == nil && c.onlyLogs(s.Body) {
+				// a branch that only logs: the condition is evaluated (it may panic), nothing else happens
+				return c.bind(cond, "c", func(string) string { return branch(nil) })
+			}
 			return c.bind(cond, "c", func(cv string) string {
 				thenT := branch(s.Body)
 				elseT := branch(elseSt)
@@ -335,6 +338,30 @@ func (c *fn) ifStmt(s *ast.IfStmt, k kont) string {
 		}
 		return core()
 	})
+}
+
+// onlyLogs: the block consists of droppable (logging) calls whose arguments
+// evaluate without a panic.
+func (c *fn) onlyLogs(b *ast.BlockStmt) bool {
+	if len(b.List) == 0 {
+		return false
+	}
+	for _, st := range b.List {
+		es, ok := st.(*ast.ExprStmt)
+		if !ok {
+			return false
+		}
+		call, ok := unparen(es.X).(*ast.CallExpr)
+		if !ok || !c.droppableCall(call) {
+			return false
+		}
+		for _, a := range call.Args {
+			if _, need := c.argEffect(a); need {
+				return false
+			}
+		}
+	}
+	return true
 }
 
 func (c *fn) switchStmt(s *ast.SwitchStmt, k kont) string {
